@@ -178,16 +178,30 @@ def run_case(c, case):
             if "lrk" not in pipe and start > 0:
                 continue
             kk = k if "lrk" in pipe else 1
-            comp, dec, data0, rec = _setup(pipe, T, kk, start)
             t0 = time.time()
             ex_vals = {n: a[0] for n, a in hist.items()}
-            data_sym = {n: jx.lift(v) for n, v in data0.items()}
-            tr_c = jx.Traced(comp, (ex_vals, data_sym, _i32(0)))
+            try:
+                # only real code runs inside this block (initialisation and the two traces)
+                stage = "Recorder.init_state"
+                comp, dec, data0, rec = _setup(pipe, T, kk, start)
+                data_sym = {n: jx.lift(v) for n, v in data0.items()}
+                stage = "Recorder.compress"
+                tr_c = jx.Traced(comp, (ex_vals, data_sym, _i32(0)))
+                stage = "Recorder.decompress"
+                tr_d = jx.Traced(dec, (data_sym, _i32(0)))
+            except (sc.NotEncodable, Inconclusive):
+                raise
+            except Exception as ex:  # noqa: BLE001
+                ekey = f"{pipe}:{'k>=T' if kk >= T else 'k<T'}:start{'>0' if start > 0 else '=0'}:exception"
+                if ekey not in dead:
+                    dead.add(ekey)
+                    c.fail_concrete(f"k{kk}/start{start}: {stage} raises on a legal configuration", dict(T=T, k=kk, start_recording_after=start, pipeline=pipe,
+                                    stage=stage, exception=f"{type(ex).__name__}: {ex}"[:400]), key=ekey)
+                continue
             data = data_sym
             for s in range(T):
                 data = tr_c({n: a[s] for n, a in hist.items()}, data, _i32(s))
                 data = {n: jx.lift(v) for n, v in data.items()}
-            tr_d = jx.Traced(dec, (data, _i32(0)))
             outs, nonfinite = {}, {}
             for t in range(start, T):
                 try:
@@ -264,7 +278,7 @@ def run_case(c, case):
                     c.notes.append(f"class {key}: first reproduced violation recorded, further obligations of this class skipped in case {case['name']}")
             # vacuity twin (once per case): a non-saved step really is reconstructed (output differs from its own recorded value)
             if not twin_done:
-                ns = [t for t in range(start, T) if t not in S]
+                ns = [t for t in range(start, T) if t not in S and t in outs]
                 if ns:
                     t = ns[0]
                     twin_done = c.witness(f"twin k{kk}/start{start}/t{t}: interpolated value can differ from the value recorded at t",
@@ -337,7 +351,9 @@ def _fp_case(c):
                 r = z3.fpToFP(z3.RNE(), r, z3.FPSort(*_FPS[_CPLX.get(d, d)]))
             rs.append(r)
         if rs[0].sort() != xs[0].sort():
-            raise Inconclusive(f"{src}->{dst}: round trip does not return the input dtype")
+            if widening:
+                c.fail_concrete(f"{src} stored as {dst}: decompress does not return the input dtype", dict(src=src, storage=dst, chain=chain), key=f"dtype-roundtrip:{src}->{dst}:dtype")
+            continue
         same = z3.And(*[r == x for r, x in zip(rs, xs)])
 
         def replay(m, xs=xs, rt=rt, src=src, comp=comp):
